@@ -357,13 +357,16 @@ func c20Serve(c *Ctx) {
 	c.R.Floor("R-C20-4", 2)
 }
 
-func c20Signal(c *Ctx) {
-	run := c.needMethod("R-C20-3", "internal/corerad", "signalTask", "Run")
+func c20Signal(c *Ctx) { signalOrder(c, "R-C20-3") }
+
+// signalOrder: terminator.set(sig) precedes cancel() in signalTask.Run.
+func signalOrder(c *Ctx, rule string) {
+	run := c.needMethod(rule, "internal/corerad", "signalTask", "Run")
 	if run == nil {
 		return
 	}
 	fn := c.fname(run)
-	ps := c.pathsO("R-C20-3", run, an.PathOpts{EmitCut: true})
+	ps := c.pathsO(rule, run, an.PathOpts{EmitCut: true})
 	for _, p := range ps {
 		if p.Ret == nil {
 			continue
@@ -396,15 +399,15 @@ func c20Signal(c *Ctx) {
 		switch arm {
 		case "signal":
 			okSig := sigArg != nil && sigArg.Op == an.OpRecv && len(sigArg.Args) == 1 && sigArg.Args[0].IsField("sigC")
-			c.R.Check(s == "set,cancel" && okSig, "R-C20-3", key, fn, c.pos(p.Ret.Pos()), fmt.Sprintf("calls [%s], set argument %v", s, sigArg),
+			c.R.Check(s == "set,cancel" && okSig, rule, key, fn, c.pos(p.Ret.Pos()), fmt.Sprintf("calls [%s], set argument %v", s, sigArg),
 				"t.t.set(<value received from sigC>) precedes t.cancel(), each exactly once", "tasks can observe cancellation before the terminate/reload decision is recorded")
 		case "ctx.Done":
-			c.R.Check(s == "", "R-C20-3", key, fn, c.pos(p.Ret.Pos()), "calls ["+s+"]", "neither set nor cancel when another task failed", "terminate flag set without a signal")
+			c.R.Check(s == "", rule, key, fn, c.pos(p.Ret.Pos()), "calls ["+s+"]", "neither set nor cancel when another task failed", "terminate flag set without a signal")
 		default:
-			c.R.Fail("R-C20-3", key+":"+pathShape(p), fn, c.pos(p.Ret.Pos()), "calls ["+s+"]", "select over ctx.Done() and sigC", "unrecognised arm")
+			c.R.Fail(rule, key+":"+pathShape(p), fn, c.pos(p.Ret.Pos()), "calls ["+s+"]", "select over ctx.Done() and sigC", "unrecognised arm")
 		}
 	}
-	c.R.Floor("R-C20-3", 2)
+	c.R.Floor(rule, 2)
 	// lockset on terminator.term
 	n := 0
 	for _, f := range c.srcFuncs() {
@@ -412,13 +415,13 @@ func c20Signal(c *Ctx) {
 			for _, in := range b.Instrs {
 				if fa, ok := in.(*ssa.FieldAddr); ok && an.FieldAddrIs(fa, PkgCorerad, "terminator", "term") && !isFreshObject(fa.X) {
 					n++
-					c.R.Check(lockHeld(f, PkgCorerad, "terminator", "mu") == "W", "R-C20-3", c.fname(f)+":access-terminator.term", c.fname(f), c.pos(fa.Pos()),
+					c.R.Check(lockHeld(f, PkgCorerad, "terminator", "mu") == "W", rule, c.fname(f)+":access-terminator.term", c.fname(f), c.pos(fa.Pos()),
 						"lock held: "+lockHeld(f, PkgCorerad, "terminator", "mu"), "terminator.term accessed only with mu held from entry to exit", "terminate flag read/written without the mutex")
 				}
 			}
 		}
 	}
-	c.R.Check(n >= 2, "R-C20-3", "corerad.terminator:term-accesses", "", "", fmt.Sprintf("%d access site(s)", n), ">= 2", "anchor-missing")
+	c.R.Check(n >= 2, rule, "corerad.terminator:term-accesses", "", "", fmt.Sprintf("%d access site(s)", n), ">= 2", "anchor-missing")
 }
 
 func c20ServeRetry(c *Ctx) {
